@@ -2,8 +2,14 @@ package c09
 
 import (
 	"fmt"
+	"os"
+	"path/filepath"
 	"sync"
+	"sync/atomic"
 	"time"
+
+	"github.com/lindb/lindb/index"
+	"github.com/lindb/lindb/series/metric"
 
 	"github.com/lindb/lindb/internal/verifhook"
 	"github.com/lindb/lindb/models"
@@ -145,4 +151,222 @@ func memdbBarrierRegion(c *core.Ctx, db string) error {
 	c.Branch("region-memdb-barrier")
 	c.NonTrivial()
 	return nil
+}
+
+// memdbWorkerRegion drives the real index worker of a shard (memdb indexDatabase.handle): a stream of rows of
+// new series of one metric through Notify, with flush requests (FlushEvent) in the middle of the stream, rows
+// queued right behind each request. When a flush reports success the directory is copied (the process dies
+// there). Every image is opened: a brand-new series and all the old tag sets are asked for; no two tag sets of
+// the metric may share a series id (a new series must not get an id the recovered dictionary uses).
+//
+// Scheduling: while a flush request is pending (sent, callback not yet run) the handler goroutine is held at
+// the yield point index.inverted.put.enter, i.e. inside GenSeriesID between the series-dictionary insert and
+// the metric→series-ids insert, until the flush has completed. In lindb PrepareFlush runs in the handler
+// goroutine itself, between two rows, so this only delays the next row.
+func memdbWorkerRegion(c *core.Ctx, db string) error {
+	e, err := newMemEnv(c, db)
+	if err != nil {
+		return err
+	}
+	closed := false
+	var rows []*metric.StorageRow
+	next := 0
+	defer func() {
+		verifhook.Set(nil)
+		drained := make(chan struct{})
+		go func() { // the handler goroutine must be idle before the stores are closed
+			for i := 0; i < next; i++ {
+				rows[i].Wait()
+			}
+			close(drained)
+		}()
+		select {
+		case <-drained:
+		case <-time.After(5 * time.Second):
+		}
+		if !closed {
+			e.close()
+		} else {
+			e.r.close()
+		}
+	}()
+	s := e.r.s
+	const ns, name = 0, 42
+	mid, err := s.genMetric(ns, name)
+	if err != nil {
+		return err
+	}
+	s.meta.PrepareFlush()
+	if err := s.meta.Flush(); err != nil {
+		return err
+	}
+	const events, before, behind = 10, 12, 4
+	total := events * (before + behind)
+	rows = make([]*metric.StorageRow, total)
+	for i := range rows {
+		row, err := s.rowOwn(ns, name, []kv{{0, 5000 + i}})
+		if err != nil {
+			return err
+		}
+		row.Done() // UnmarshalRows registered two consumers (metadata + index worker); only the index worker is fed
+		row.Done()
+		row.MemSeriesID = uint32(i + 1)
+		rows[i] = row
+	}
+	e.idb.GetOrCreateTimeSeriesIndex(rows[0]) // as memoryDatabase.WriteRow does before it notifies a row
+
+	// Every row is a new series with one tag: GenSeriesID calls invertedIndex.put twice per row, first for
+	// metric→series (the call between the two inserts), then for tag value→series. The handler takes rows in
+	// channel order, so call number 2i belongs to row i; a row sent behind a flush request is handled after the
+	// handler has taken the request.
+	var pending, held, calls, behindStart atomic.Int32
+	verifhook.Set(func(id string) {
+		if id != "index.inverted.put.enter" {
+			return
+		}
+		n := calls.Add(1) - 1
+		cur := pending.Load() // number of the pending flush request, 0 = none
+		if cur == 0 || n%2 != 0 || n/2 < behindStart.Load() {
+			return
+		}
+		held.Add(1)
+		for dl := time.Now().Add(2 * time.Second); pending.Load() == cur && time.Now().Before(dl); {
+			time.Sleep(50 * time.Microsecond)
+		}
+	})
+	send := func(i int) {
+		rows[i].Add(1)
+		e.idb.Notify(rows[i])
+	}
+	type image struct {
+		dir  string
+		sent int
+	}
+	var images []image
+	var flushErr error
+	t0 := time.Now()
+	for ev := 0; ev < events && flushErr == nil; ev++ {
+		for k := 0; k < before; k++ {
+			send(next)
+			next++
+		}
+		if ev%2 == 1 { // every other request finds the handler idle, the others find it busy with rows
+			for i := 0; i < next; i++ {
+				rows[i].Wait()
+			}
+		}
+		done := make(chan struct{})
+		img := filepath.Join(s.root, fmt.Sprintf("wimg-%d", ev))
+		behindStart.Store(int32(next))
+		pending.Store(int32(ev + 1))
+		e.idb.Notify(&memdb.FlushEvent{Callback: func(err error) {
+			if err != nil {
+				flushErr = err
+			} else if err := copyTree(s.genDir(), img); err != nil {
+				flushErr = err
+			}
+			pending.Store(0)
+			close(done)
+		}})
+		for k := 0; k < behind; k++ {
+			send(next)
+			next++
+		}
+		select {
+		case <-done:
+		case <-time.After(10 * time.Second):
+			pending.Store(0)
+			return fmt.Errorf("memdb worker region: flush callback never ran")
+		}
+		images = append(images, image{img, next})
+	}
+	for i := 0; i < next; i++ {
+		rows[i].Wait()
+	}
+	verifhook.Set(nil)
+	if flushErr != nil {
+		return fmt.Errorf("memdb worker region: flush: %w", flushErr)
+	}
+	tStream := time.Since(t0)
+	// in the running process: every tag set answers with one id, all different
+	live := map[uint32]int{}
+	for i := 0; i < next; i++ {
+		id, err := s.genSeries(0, ns, name, int(mid), []kv{{0, 5000 + i}})
+		if err != nil {
+			return err
+		}
+		if j, dup := live[id]; dup {
+			c.Fail("memdb-worker-series-id-shared", fmt.Sprintf("worker region: running process: series {k0=v%d} and {k0=v%d} of one metric share series id %d", 5000+j, 5000+i, id))
+			break
+		}
+		live[id] = i
+	}
+	e.idb.Close()
+	e.meta.Close()
+	s.closeDBs()
+	closed = true
+	bad := 0
+	for n, im := range images {
+		msg, err := checkWorkerImage(s.dbName, im.dir, int(mid), ns, name, next, s)
+		if err != nil {
+			return fmt.Errorf("memdb worker region: image %d: %w", n, err)
+		}
+		if msg != "" {
+			bad++
+			if bad == 1 {
+				c.Fail("memdb-worker-series-id-reused", fmt.Sprintf("worker region: crash right after flush request %d of %d (%d rows notified before it completed) reported success, reopen: %s", n+1, events, im.sent, msg))
+			}
+		}
+		_ = os.RemoveAll(im.dir)
+	}
+	c.Note(fmt.Sprintf("memdb worker region: %d rows, %d flush requests, handler held %d times inside GenSeriesID, %d bad images (stream %dms, total %dms)", next, events, held.Load(), bad, tStream.Milliseconds(), time.Since(t0).Milliseconds()))
+	if held.Load() == 0 {
+		c.Fail("witness-not-scheduled", "memdb worker region: the handler never reached index.inverted.put.enter while a flush was pending")
+	}
+	c.Branch("region-memdb-worker")
+	c.NonTrivial()
+	return nil
+}
+
+// checkWorkerImage opens a crash image and creates a brand-new series, then asks for all old tag sets: the ones
+// the flush persisted answer with their old id, the others are created again. Two tag sets with one id = "".
+func checkWorkerImage(dbName, dir string, mid, ns, name, n int, s *sys) (string, error) {
+	meta, err := index.NewMetricMetaDatabase(dbName, filepath.Join(dir, "meta"))
+	if err != nil {
+		return "", err
+	}
+	defer meta.Close()
+	ix, err := index.NewMetricIndexDatabase(filepath.Join(dir, "shard-0"), meta)
+	if err != nil {
+		return "", err
+	}
+	defer ix.Close()
+	gen := func(v int) (uint32, error) {
+		row, err := s.rowOwn(ns, name, []kv{{0, v}})
+		if err != nil {
+			return 0, err
+		}
+		return ix.GenSeriesID(metric.ID(mid), row)
+	}
+	persisted, err := ix.GetSeriesIDsForMetric(metric.ID(mid))
+	if err != nil {
+		return "", err
+	}
+	newID, err := gen(999999)
+	if err != nil {
+		return "", err
+	}
+	seen := map[uint32]int{newID: 999999}
+	for i := 0; i < n; i++ {
+		id, err := gen(5000 + i)
+		if err != nil {
+			return "", err
+		}
+		if j, dup := seen[id]; dup {
+			return fmt.Sprintf("series {k0=v%d} and {k0=v%d} of metric %d share series id %d (the first one asked for after recovery was the NEW series {k0=v999999}, it got id %d; the recovered metric=>series-ids index held %d ids)",
+				j, 5000+i, mid, id, newID, persisted.GetCardinality()), nil
+		}
+		seen[id] = 5000 + i
+	}
+	return "", nil
 }
